@@ -54,7 +54,7 @@ MANIFEST = dict(
 )
 
 IMPORTS = ['Coq.Lists.List', 'Coq.Bool.Bool', 'Coq.ZArith.ZArith', 'Coq.Strings.String', 'SV.SM.Store', 'SV.SM.StoreCert',
-           'SV.SM.StoreCopy', 'SV.SM.StoreCopySrc', 'SV.SM.StoreCopyExport', 'SV.SM.StoreCopyFlow', 'SV.SM.StoreCopyWholeProofs', 'SV.SM.KvAdd', 'SV.SM.KvAddFresh',
+           'SV.SM.StoreCopy', 'SV.SM.StoreCopySrc', 'SV.SM.StoreCopyExport', 'SV.SM.StoreCopyFlow', 'SV.SM.StoreCopyWholeProofs', 'SV.SM.StoreRowCert', 'SV.SM.KvAdd', 'SV.SM.KvAddFresh',
            'SV.SM.OpPurity', 'SV.SM.CollapseCensus', 'SV.Gen.CopyCensus_gen', 'SV.Gen.CopyExportReads_gen',
            'SV.Gen.C09OpCensus_gen', 'SV.Gen.C09Collapse_gen', 'SV.Props.C09']
 CORPUS = hc.VERIF / 'corpus' / 'C09'
@@ -365,6 +365,129 @@ def cert_cases(ck: Ck) -> None:
         ck.tie_broken.append('identity walk and kernel certificate disagree')
     ck.sample({'certificate_case': meta[0][:4], 'kernel_says_separated': vals[0]})
     ck.extra['certificate_rejected'] = [list(m) for m in bad][:20]
+
+
+def export_rows_heap(a: Any, b: Any, ta: Any, tb: Any, fields: list[str]) -> tuple[list, list[int], int, int, list[int]]:
+    """The object graphs of a (original) and b (copy) as a finite heap for the census-row certificate: like
+    c09_util.export_heap, but the two objects the census speaks about (ta inside a, tb inside b) get their fields in
+    CENSUS order, the locations of a's graph are returned as the OLD set and the reach set of tb as the new-set
+    certificate."""
+    from harness import c09_util as U
+    wa, wb = U.walk(a), U.walk(b)
+    locs: dict[int, int] = {}
+    objs: list[Any] = []
+    for w in (wa, wb):
+        for i, (o, _p) in w.items():
+            if i not in locs:
+                locs[i] = len(locs) + 1
+                objs.append(o)
+    atoms: dict[str, int] = {}
+    nodes = []
+    for o in objs:
+        if o is ta or o is tb:
+            kids = [('.' + f, getattr(o, f)) for f in fields]
+        else:
+            kids = U.children(o)
+            if isinstance(o, U.Array):
+                kids = [('[]', x) for x in o]
+        fs = []
+        for _lab, ch in kids:
+            if id(ch) in locs and not U.is_context(ch) and not U.is_immutable_leaf(ch):
+                fs.append(('R', locs[id(ch)]))
+            else:
+                key = 'ctx' if U.is_context(ch) else f'{type(ch).__name__}:{ch!r}'
+                fs.append(('A', atoms.setdefault(key, len(atoms))))
+        nodes.append((locs[id(o)], U.is_mutable(o), fs))
+    return nodes, [locs[i] for i in wa], locs[id(ta)], locs[id(tb)], [locs[i] for i in U.walk(tb)]
+
+
+def cert_rows(ck: Ck, side: dict) -> None:
+    """For generated objects of EVERY census label (nested ones included: a DispVertex of a copied side, a FixupValue
+    of a copied fixup table) export original + copy and let the kernel decide `row_cert_ok` against the generated
+    census_X / sources_X: every field of the copy is related to its source field of the original as the row says
+    (same value / fresh container of the same elements / only new mutables below / a new ID) and the original's fields
+    have the declared kinds — the premises of c09_census_src_copy_independent (c09_row_cert_sound)."""
+    from harness import c09_util as U
+    census = side.get('census', {})
+    makers: dict[str, tuple[str, Any]] = {
+        'EntityFixup_copy_values': ('EntityFixup', lambda o: U.EntityFixup(o.copy_values())),
+        'EntityFixup_copy': ('EntityFixup', lambda o: _copy.copy(o)),
+        'EntityFixup_deepcopy': ('EntityFixup', lambda o: _copy.deepcopy(o)),
+    }
+    for k in ('Camera', 'Cordon', 'VisGroup', 'Solid', 'UVAxis', 'Side', 'Entity', 'EntityGroup', 'Output', 'Keyvalues'):
+        makers[k] = (k, lambda o: o.copy())
+    n = _budget(ck, 3, 24)
+    exprs: list[str] = []
+    meta: list[tuple] = []
+    no_probe: list[str] = []
+
+    def fld(f):
+        return f'VRef {f[1]}%positive' if f[0] == 'R' else f'VAtom {f[1]}%Z'
+    pl = lambda l: '(' + coq_list(f'{x}%positive' for x in l) + ')'
+    for lab, rows in census.items():
+        fields = [r[0] for r in rows]
+        got = 0
+        for _try in range(4 * n):
+            if got >= n:
+                break
+            seed = ck.rng.randrange(1 << 30)
+            r = random.Random(seed)
+            with warnings.catch_warnings():
+                warnings.simplefilter('ignore')
+                if lab in makers:
+                    o = U.generate(makers[lab][0], r, U.VMF())
+                    c = makers[lab][1](o)
+                    ta, tb = o, c
+                elif lab.startswith('DispVertex_in_'):
+                    o = U.g_side(r, U.VMF(), r.choice([1, 2]))
+                    c = o.copy()
+                    if not o._disp_verts:
+                        continue
+                    k = r.randrange(len(o._disp_verts))
+                    ta, tb = o._disp_verts[k], c._disp_verts[k]
+                elif lab.startswith('FixupValue_in_') and lab.split('_in_')[1] in makers:
+                    o = U.generate('EntityFixup', r, U.VMF())
+                    c = makers[lab.split('_in_')[1]][1](o)
+                    if not o._fixup:
+                        continue
+                    k0 = r.choice(sorted(o._fixup))
+                    ta, tb = o._fixup[k0], c._fixup[k0]
+                else:
+                    no_probe.append(lab)
+                    break
+            try:
+                nodes, old, la, lc, sb = export_rows_heap(o, c, ta, tb, fields)
+            except AttributeError:
+                continue
+            if len(nodes) > 700:
+                continue
+            lit = coq_list(f'({loc}%positive, Node {"true" if m else "false"} {coq_list(fld(f) for f in fs)})' for loc, m, fs in nodes)
+            exprs.append(f'row_cert_ok {lit} {pl(old)} {la}%positive {lc}%positive {pl(sb)} census_{lab} sources_{lab}')
+            meta.append((lab, seed, len(nodes)))
+            got += 1
+            ck.count('row_certificate_cases')
+            ck.hist('row_certificate_label', lab)
+            ck.seen(('rowcert', lab, seed))
+    vals: list[str] | None = []
+    for lo in range(0, len(exprs), 55):
+        part = ck.coq_eval(IMPORTS, exprs[lo:lo + 55], name='rowcert', preamble='Import ListNotations.\n', timeout=900)
+        if part is None:
+            vals = None
+            break
+        vals += part
+    if vals is None:
+        ck.obligation('certificate:census_rows_hold', False, 'exported heaps could not be evaluated by coqc')
+        ck.tie_broken.append('census-row certificate evaluation failed')
+        return
+    bad = [m for m, v in zip(meta, vals) if v != 'true']
+    ck.obligation('certificate:census_rows_hold', not bad and not no_probe,
+                  f'{len(exprs)} exported (original, copy) heaps over {len(census) - len(no_probe)} census labels: the kernel decides that '
+                  f'every field of the copy is related to its source field as the generated census row says and that the '
+                  f'original\'s fields have the declared kinds, for {len(exprs) - len(bad)}; rejected (label, seed, nodes): '
+                  f'{bad[:6]}; labels without a run-time probe: {no_probe}')
+    if bad or no_probe:
+        ck.tie_broken.append('census rows do not hold on a real (original, copy) object graph: ' + repr((bad + no_probe)[:4]))
+    ck.extra['row_certificate_rejected'] = [list(m) for m in bad][:20]
 
 
 # ------------------------------------------------------------------------------------------------ census vs runtime
@@ -1109,6 +1232,7 @@ def run(ck: Ck) -> None:
                     c: side.get('sources', {}).get(c) for c in side.get('classes', []) if not res.get(f'copy_sources_match:{c}', True)}
         lap('instance_obligations')
         cert_cases(ck)
+        cert_rows(ck, side)
         lap('certificates')
         corr_census_runtime(ck, side, tuple(k for k, v in res.items() if k.startswith('copy_fresh_mutables:') and not v))
         corr_flows_runtime(ck, side)
@@ -1159,6 +1283,7 @@ def run(ck: Ck) -> None:
         ck.explain('certificate:export_ok')
     if any_key('shared-mutable:', 'mutation-visible:', 'copy-incomplete:'):
         ck.explain('instance:all_classes_complete_and_independent')
+        ck.explain('certificate:census_rows_hold')
     if any_key('instance-collapse-changes-template:', 'instance-'):
         ck.explain('instance:collapse_never_writes_template')
         ck.explain('instance:collapse_only_copies_enter_target')
